@@ -91,6 +91,9 @@ def h_noloss(s0: int, s1: int, s2: int, stray: int, relink: bool, prompt_decline
                     env.write(p + "/inner", USER[k])
             if stray_kind:
                 env.write(ws + "/stray", OLDC["a"] if stray_kind == 1 else b"precious-stray")
+            if cube("dangling", False) and not root_is_file:
+                # a dangling symlink the user left in the workspace directory (it holds no data itself)
+                env.symlink(env.p("nowhere"), ws + "/lnk")
             cached = {hashlib.md5(d).hexdigest() for d in env.odb_objects(cache).values()}
             before = env.snapshot(ws) if not root_is_file else ({"": ("file", env.read(ws), 0, 0, 1)} if env.exists(ws) and env.stat(ws)["type"] != "directory" else
                                                                  {"": ("dir", None, 0, 0, 1), **env.snapshot(ws)} if env.exists(ws) else {})
@@ -107,6 +110,11 @@ def h_noloss(s0: int, s1: int, s2: int, stray: int, relink: bool, prompt_decline
             raised = e
         except HarnessGap:
             raise
+        except FileNotFoundError as e:
+            if not cube("dangling", False):
+                violation("checkout-raised-unexpected", f"{type(e).__name__}: {e}")
+                return True
+            raised = e  # refusing a workspace that cannot be read completely is an explicit error too; the loss oracle below still applies
         except Exception as e:  # noqa: BLE001
             violation("checkout-raised-unexpected", f"{type(e).__name__}: {e}")
             return True
@@ -132,7 +140,8 @@ def h_noloss(s0: int, s1: int, s2: int, stray: int, relink: bool, prompt_decline
                     uncached_in_way = True
             if stray_kind == 2:
                 uncached_in_way = True
-            if uncached_in_way and not isinstance(raised, PromptError):
+            refused = isinstance(raised, PromptError) or (cube("dangling", False) and isinstance(raised, FileNotFoundError))
+            if uncached_in_way and not refused:
                 violation("uncached-data-in-the-way-but-no-refusal", (prior, stray_kind, type(raised).__name__))
         journal({"prior": prior, "stray": stray_kind, "relink": relink, "declines": declines, "raised": type(raised).__name__ if raised else None},
                 nontrivial=any(prior) or bool(stray_kind))
